@@ -484,6 +484,12 @@ func TestC04Bool(t *testing.T) {
 	// then means must survive the rewrite like every accepted expression)
 	texts := []*lib.Node{lib.Str(""), lib.Str("a"), lib.Str("b"), lib.Key(), lib.Value(), lib.Call("upper", lib.Str("a")), lib.Call("lower", lib.Key()), lib.Call("str", lib.Int(3)),
 		lib.Int(1), lib.Int(2), lib.Call("strlen", lib.Key())}
+	// round 11: two constant calls whose canonical renderings coincide (the
+	// engine prints a literal between single quotes without escaping): one
+	// item that holds `', '`, written with the other quote character, and the
+	// two items it looks like. Whatever is remembered about the one must not
+	// answer for the other.
+	texts = append(texts, lib.Call("join", lib.Str("-"), lib.Str("a', 'b")), lib.Call("join", lib.Str("-"), lib.Str("a"), lib.Str("b")))
 	for _, a := range texts {
 		for _, b := range texts {
 			for _, cN := range texts {
